@@ -327,7 +327,7 @@ fn doc_key(key: &str, text: &str) -> String {
     } else if key.contains("sharedstring") || text.contains("SStr ") {
         "doc-sharedstring-index-endianness".into()
     } else if key.contains("content") || text.contains("Content ") {
-        "doc-content-layout".into()
+        "doc-content-sourcetypes".into()
     } else {
         format!("doc-{key}")
     }
@@ -374,6 +374,11 @@ fn judge_c03(id: &str, lines: &[String], model: &[String], out: &mut Vec<String>
                         if x.key == "canonical-name-changes" {
                             continue;
                         }
+                        // an instance that lacked UniqueId gets the nil default (0,0,0) in the file; building a WeakDom from the
+                        // decoded forest regenerates nil / repeated ids (WeakDom's uniqueness rule, C12), exactly as for the reader
+                        if x.key == "default-uniqueid-regenerated" {
+                            continue;
+                        }
                         // docs/binary.md has no section for type id 0x21 (SecurityCapabilities): the column is an unknown type to the document
                         let key = if x.key.contains("securitycapabilities") { "doc-type-0x21-undocumented".to_string() } else { x.key.clone() };
                         if seen.insert(key.clone()) {
@@ -391,7 +396,13 @@ fn judge_c03(id: &str, lines: &[String], model: &[String], out: &mut Vec<String>
             if lit != am {
                 match lit {
                     SpecDom::Err(c) => {
-                        let k = if c == "5a" { "doc-sharedstring-index-endianness".to_string() } else { format!("doc-literal-rejects-{}", err_name(c)) };
+                        let k = if c == "5a" {
+                            "doc-sharedstring-index-endianness".to_string()
+                        } else if c == "50" {
+                            "doc-content-sourcetypes".to_string()
+                        } else {
+                            format!("doc-literal-rejects-{}", err_name(c))
+                        };
                         out.push(format!("{id} C03 {k} comp={comp} read literally the document rejects the written file ({}); the amended reading accepts it", err_name(c)));
                     }
                     SpecDom::Ok(body) => match dom_of_spec_lines(body, true) {
@@ -573,7 +584,7 @@ fn judge_c04(id: &str, lines: &[String], model: &[String], out: &mut Vec<String>
                         out.push(format!("{id} C04 doc-sharedstring-index-endianness variant=literal tags={tagstr} {d}"));
                     }
                     if text.contains(" V 22 ") {
-                        out.push(format!("{id} C04 doc-content-layout variant=literal tags={tagstr} {d}"));
+                        out.push(format!("{id} C04 doc-content-sourcetypes variant=literal tags={tagstr} {d}"));
                     }
                     if !text.contains(" V 1f ") && !text.contains(" V 1c ") && !text.contains(" V 22 ") {
                         out.push(format!("{id} C04 doc-literal variant=literal tags={tagstr} {d}"));
